@@ -95,6 +95,12 @@ fn main() {
             for w in st.take_warnings() {
                 println!("{:?} level>=Warn:{} {}", w.kind, w.level() >= glass_easel_template_compiler::parse::ParseErrorLevel::Warn, w);
             }
+            if let Ok(r1) = c14::reprint("index", &inp, false) {
+                println!("print 1: {}", r1.text);
+                if let Ok(r2) = c14::reprint("index", &r1.text, false) {
+                    println!("print 2: {}  (diagnostics of print 1: {:?})", r2.text, r1.warn_or_worse.len().min(0) + r2.warn_or_worse.len());
+                }
+            }
             0
         }
         "jobs" => {
